@@ -4,6 +4,8 @@
 From Grex Require Import Base.Str Model.Config Model.Cluster Model.Dfa Model.Expr Model.Print
   Model.Pipeline.
 From Grex Require Import Proofs.PrintShape Proofs.EscapeProps Proofs.PropsGlue.
+From Grex Require Proofs.SurrogateDecode Proofs.SurrogateRepair Proofs.SurrogateEq Proofs.PrintParseDefs Proofs.PrintParseNum Proofs.Lang.
+From Grex Require Engine.Syntax Engine.Parse Engine.Sem.
 Local Open Scope N_scope.
 
 (* with escaping enabled the whole output is ASCII *)
@@ -51,6 +53,28 @@ Theorem C11_decode : forall sur c,
   128 <= c -> (c < 55296 \/ 57344 <= c <= 1114111) -> decode_escapes (escape_cp sur c) = [c].
 Proof. exact escape_decode. Qed.
 
+(* decoding the surrogate escapes (re-pairing) gives a pattern with the language of the
+   expression, i.e. of the build without surrogate pairs (non-verbose mode) *)
+Theorem C11_repair_language : forall (lit_den cls_den : cp -> cp -> Prop) (isd is_ws : cp -> bool) (c : cfg) (e : expr),
+  f_verbose c = false -> PrintParseDefs.wf_print e -> PrintParseNum.ws_ok is_ws ->
+  exists fl r, Parse.parse is_ws (SurrogateRepair.repair (regexp_str isd (SurrogateDecode.sur c) e)) = Some (fl, r)
+    /\ Syntax.fl_i fl = f_ci c /\ Syntax.fl_x fl = false
+    /\ (forall s, Sem.L_rast lit_den cls_den r s <-> Lang.L_expr lit_den cls_den e s).
+Proof. exact SurrogateDecode.repair_parse. Qed.
+
+Theorem C11_repair_same_language : forall (lit_den cls_den : cp -> cp -> Prop) (isd is_ws : cp -> bool) (c : cfg) (e : expr),
+  f_verbose c = false -> PrintParseDefs.wf_print e -> PrintParseNum.ws_ok is_ws ->
+  exists fl r1 r2,
+    Parse.parse is_ws (SurrogateRepair.repair (regexp_str isd (SurrogateDecode.sur c) e)) = Some (fl, r1)
+    /\ Parse.parse is_ws (regexp_str isd (SurrogateDecode.nosur c) e) = Some (fl, r2)
+    /\ (forall s, Sem.L_rast lit_den cls_den r1 s <-> Sem.L_rast lit_den cls_den r2 s).
+Proof. exact SurrogateDecode.repair_same_language. Qed.
+
+Theorem C11_repair_identity_without_surrogates : forall (isd : cp -> bool) (c : cfg) (gap : Prop) (e : expr),
+  f_verbose c = false -> PrintParseDefs.wf_print_gen gap e ->
+  SurrogateRepair.repair (regexp_str isd (SurrogateDecode.nosur c) e) = regexp_str isd (SurrogateDecode.nosur c) e.
+Proof. exact SurrogateEq.repair_nosur_id. Qed.
+
 Print Assumptions C11_ascii.
 Print Assumptions C11_ascii_expr.
 Print Assumptions C11_ascii_codepoint.
@@ -59,3 +83,6 @@ Print Assumptions C11_surrogates.
 Print Assumptions C11_hex_roundtrip.
 Print Assumptions C11_hex_shape.
 Print Assumptions C11_decode.
+Print Assumptions C11_repair_language.
+Print Assumptions C11_repair_same_language.
+Print Assumptions C11_repair_identity_without_surrogates.
